@@ -19,6 +19,9 @@ type C01Plan struct {
 	Mods    []C01Mod   `json:"mods"`
 	Anomaly string     `json:"anomaly,omitempty"` // cycle | missing
 	Rounds  []C01Round `json:"rounds,omitempty"`
+	// EarlyShutdown k>0: another goroutine calls Shutdown as soon as the start routine of module k-1 begins, i.e.
+	// while Start is still starting modules
+	EarlyShutdown int `json:"early_shutdown,omitempty"`
 }
 
 // C01Mod describes one module.
@@ -106,6 +109,10 @@ func genC01(rng *rand.Rand, tier string) *C01Plan {
 		}
 		p.Rounds = append(p.Rounds, rd)
 	}
+	if rng.IntN(8) == 0 {
+		p.EarlyShutdown = 1 + rng.IntN(len(p.Mods))
+		p.Rounds = nil
+	}
 	return p
 }
 
@@ -120,6 +127,7 @@ type c01State struct {
 	shutdownErr error
 	startT, stopT time.Duration
 	anyFailure  bool // some lifecycle routine failed or an API call returned an error so far
+	earlyDone   chan struct{} // closed when the Shutdown issued during Start has returned and was checked
 }
 
 var phaseNames = [3]string{"prep", "start", "stop"}
@@ -130,6 +138,16 @@ func (s *c01State) callback(i, ph int) func() error {
 		s.inv[i][ph]++
 		s.evs = append(s.evs, ev{Seq: simrt.Seq(), T: simrt.Now(), Mod: i, Phase: phaseNames[ph], Kind: "begin", Inv: inv})
 		m := s.p.Mods[i]
+		if ph == 1 && inv == 0 && s.p.EarlyShutdown == i+1 && s.earlyDone == nil {
+			s.earlyDone = make(chan struct{})
+			go func() {
+				s.shutdownErr = modules.Shutdown()
+				s.rc.H("early Shutdown err=%v", s.shutdownErr != nil)
+				s.afterShutdown()
+				close(s.earlyDone)
+			}()
+			s.rc.Probe("shutdown-during-start")
+		}
 		if d := durLadder[m.Dur[ph]]; d > 0 {
 			time.Sleep(d)
 		}
@@ -292,7 +310,9 @@ func execC01(p *C01Plan, rc *simkit.RunCtx) {
 			rc.Fail("C01.anomaly-accepted", "Start accepted a dependency "+p.Anomaly, "")
 			return
 		}
-		s.checkOnline("Start")
+		if s.earlyDone == nil {
+			s.checkOnline("Start")
+		}
 		for ri, rd := range p.Rounds {
 			if rc.Failed() {
 				return
@@ -342,8 +362,30 @@ func execC01(p *C01Plan, rc *simkit.RunCtx) {
 	if rc.Failed() {
 		return
 	}
-	s.shutdownErr = modules.Shutdown()
-	rc.H("Shutdown err=%v", s.shutdownErr != nil)
+	if s.earlyDone != nil {
+		<-s.earlyDone
+	} else {
+		s.shutdownErr = modules.Shutdown()
+		rc.H("Shutdown err=%v", s.shutdownErr != nil)
+		s.afterShutdown()
+	}
+	if rc.Failed() {
+		return
+	}
+	// let in-flight lifecycle routines finish
+	simrt.AwaitQuiescence(10 * time.Minute)
+	for i, m := range s.mods {
+		if m.Online() {
+			rc.Fail("C01.online-after-shutdown", "module came online after Shutdown returned: "+s.context(i),
+				fmt.Sprintf("module %s is online after Shutdown returned and the system went quiet", modName(i)))
+			return
+		}
+	}
+}
+
+// afterShutdown checks the last sentence of the statement at the moment Shutdown returns.
+func (s *c01State) afterShutdown() {
+	rc := s.rc
 	// clause 5 at return
 	for i, m := range s.mods {
 		if m.Online() {
@@ -356,15 +398,6 @@ func execC01(p *C01Plan, rc *simkit.RunCtx) {
 		if a, b := s.okStarts(i), s.stopBegins(i); a != b {
 			rc.Fail("C01.stop-count", "stop invocations differ from successful starts when Shutdown returned: "+s.context(i),
 				fmt.Sprintf("module %s: %d successful start runs, %d stop invocations (Shutdown err=%v)", modName(i), a, b, s.shutdownErr))
-			return
-		}
-	}
-	// let in-flight lifecycle routines finish
-	simrt.AwaitQuiescence(10 * time.Minute)
-	for i, m := range s.mods {
-		if m.Online() {
-			rc.Fail("C01.online-after-shutdown", "module came online after Shutdown returned: "+s.context(i),
-				fmt.Sprintf("module %s is online after Shutdown returned and the system went quiet", modName(i)))
 			return
 		}
 	}
